@@ -53,9 +53,10 @@ def _default_for(spec):
         if spec.get("req") and verdict[1] in ("", [], {}, ()):
             return {"mode": "none"}
         item = spec.get("item") if kind == "list" else None
-        if item and item["kind"] == "any" and item.get("req") and isinstance(real, (list, tuple)) and any(x is None for x in real):
-            # ListField(AnyField(required=True)) does not look at assigned items but wraps its *default* in a proxy
-            # that does: a None item in the default makes the constructor raise. A schema-authoring corner, excluded.
+        if item and item["kind"] == "any" and isinstance(real, (list, tuple)) and any(refmodel.ref(item, x, ctx)[0] != A for x in real):
+            # ListField(AnyField(required=True / validator=...)) does not look at assigned items but wraps its *default*
+            # in a proxy that does: a None item (required) or an item its validator rejects makes the constructor raise.
+            # A schema-authoring corner ("declared defaults are themselves valid"), excluded.
             return {"mode": "none"}
         if value_eq(verdict[1], real) and type(verdict[1]) is type(real):
             return raw
